@@ -15,13 +15,71 @@ Transform on a copy, UpdateBoxes forth and back), on boolean2's edge-pair broad 
 BVH) and on the polygon k-d tree, and compares pair multisets.  A seeded large run (to 5000 leaves,
 duplicated codes, degenerate overall box, Morton codes computed as sort.cpp does; `par` build in
 thorough tier) uses the driver's brute-force scan, which is cross-checked against the
-specification's expected sets on every TLC case."""
-import json, os, random, time
+specification's expected sets on every TLC case.
+"All query boxes/points" includes UNBOUNDED ones: the specification models -Infinity/+Infinity by
+sentinels strictly outside every finite coordinate of a case (checked by TLC), its closed-interval
+oracle gives the expected sets, the traversal model has the "early exit for empty boxes" guard, and
+every Collider case carries 8 unbounded query boxes (whole space, the empty default Box() expecting
+nothing, half spaces / slabs / orthants, boxes with one empty or degenerate-at-infinity axis) and 3
+unbounded points, asked in every phase (build, Transform, UpdateBoxes forth and back) through every
+Collisions overload; the k-d tree gets 13 unbounded query rectangles; the seeded large cases append
+such queries too.  They are printed as the tokens "-Infinity"/"Infinity" and mapped to the IEEE
+infinities by the driver."""
+import json, os, random, threading, time
 from concurrent.futures import ThreadPoolExecutor
 import vf, progfam
 
 OWNED = ('pairs', 'rects', 'kdtree')
 DRIFT = ('drift', 'rootbox')
+INF = ('Infinity', '-Infinity')
+_lock = threading.Lock()
+
+
+def unbounded_stats(cases):
+    """classify the unbounded query boxes TLC printed (per case: the plain query list), with the size of the expected set"""
+    st = {'query_boxes': 0, 'with_nonempty_expected_set': 0, 'whole_space': 0, 'empty_default_box': 0,
+          'empty_default_box_expecting_nothing': 0, 'half_infinite_on_some_axis': 0,
+          'min_-inf_on_one_axis_max_+inf_on_all': 0, 'dead_axis_not_x_min': 0, 'query_points': 0, 'points_with_nonempty_expected_set': 0,
+          'kdtree_query_rects': 0, 'kdtree_rects_with_nonempty_expected_set': 0, 'axis_kind_signatures': set()}
+    for c in cases:
+        if c['kind'] == 'points':
+            for q, e in zip(c['queries'], c['exp']):
+                if any(x in INF for x in q):
+                    st['kdtree_query_rects'] += 1
+                    st['kdtree_rects_with_nonempty_expected_set'] += bool(e)
+            continue
+        if c['kind'] != 'bvh3':
+            continue
+        for q, e in zip(c['qboxes'], c['expBox']):
+            if not any(x in INF for x in q):
+                continue
+            ax = []
+            for d in range(3):
+                lo, hi = q[d], q[d + 3]
+                ax.append('line' if (lo, hi) == ('-Infinity', 'Infinity') else 'empty' if (lo, hi) == ('Infinity', '-Infinity')
+                          else 'at-inf' if lo == hi and lo in INF else 'left' if lo == '-Infinity' else 'right' if hi == 'Infinity' else 'finite')
+            st['query_boxes'] += 1
+            st['with_nonempty_expected_set'] += bool(e)
+            st['axis_kind_signatures'].add(tuple(ax))
+            if ax == ['line'] * 3:
+                st['whole_space'] += 1
+                if len(e) != c['n']:
+                    raise vf.ToolError('the specification does not expect every leaf for the whole-space query: %s' % case_text(c))
+            if ax == ['empty'] * 3:
+                st['empty_default_box'] += 1
+                st['empty_default_box_expecting_nothing'] += not e
+            if 'left' in ax or 'right' in ax:
+                st['half_infinite_on_some_axis'] += 1
+            if all(q[d + 3] == 'Infinity' for d in range(3)) and sum(q[d] == '-Infinity' for d in range(3)) == 1 and 'Infinity' not in q[:3]:
+                st['min_-inf_on_one_axis_max_+inf_on_all'] += 1
+            if q[0] != 'Infinity' and ('empty' in ax or 'at-inf' in ax):
+                st['dead_axis_not_x_min'] += 1
+        for q, e in zip(c['qpoints'], c['expPoint']):
+            if any(x in INF for x in q):
+                st['query_points'] += 1
+                st['points_with_nonempty_expected_set'] += bool(e)
+    st['axis_kind_signatures'] = len(st['axis_kind_signatures'])
+    return st
 
 
 def _tlc(args):
@@ -104,6 +162,9 @@ def run_cases(chk, cases, tag, variant='seq', jobs=12, timeout=900):
     texts = [json.dumps(c) for c in cases]
     results, crashes = progfam.pdrive(variant, args, texts, work, tag + variant, timeout, jobs)
     nontrivial = sum(1 for r in results.values() if r.get('nontrivial', 0) > 0)
+    with _lock:   # measured by the driver: unbounded queries it asked (per case, each counted once) / with a non-empty expected set
+        chk.unbounded[0] += sum(r.get('unbounded', 0) for r in results.values())
+        chk.unbounded[1] += sum(r.get('unbounded_hit', 0) for r in results.values())
     if len(results) < len(cases) and not crashes:
         raise vf.ToolError('driver gave no verdict for %d of %d cases (%s)' % (len(cases) - len(results), len(cases), tag))
     failing = []
@@ -189,10 +250,11 @@ def rand_cases(tier, variant):
 
 def main(tier):
     chk = vf.Check('C14', tier, 'model_checking')
+    chk.unbounded = [0, 0]
     vf.build('seq')
     thorough = tier == 'thorough'
     jobs = [('genA', 'RadixTree_genA.cfg', 6, 900), ('genB', 'RadixTree_genB.cfg', 6, 900),
-            ('trav', 'RadixTree_trav5.cfg' if thorough else 'RadixTree_trav.cfg', 8 if thorough else 4, 7200),
+            ('trav', 'RadixTree_trav5.cfg' if thorough else 'RadixTree_trav.cfg', 8 if thorough else 6, 7200),
             ('tree', 'RadixTree_tree.cfg', 3, 900), ('big', 'RadixTree_bigT.cfg' if thorough else 'RadixTree_big.cfg', 4, 1500),
             ('2d', 'RadixTree_2dT.cfg' if thorough else 'RadixTree_2d.cfg', 3, 900),
             ('build', 'RadixTree_build6.cfg', 3, 900)]
@@ -224,6 +286,13 @@ def main(tier):
     over128 = sum(1 for c in cases if c['kind'] == 'bvh3' and c['n'] > 128)
     if min(dup_codes, same_box, degenerate, over128) == 0:
         raise vf.ToolError('vacuity: duplicates/degenerate/large classes missing: %s' % [dup_codes, same_box, degenerate, over128])
+    ub = unbounded_stats(cases)
+    nb = kinds['bvh3']
+    if (ub['whole_space'] < nb or ub['empty_default_box'] < nb or ub['empty_default_box_expecting_nothing'] != ub['empty_default_box']
+            or ub['with_nonempty_expected_set'] < 2 * nb or ub['half_infinite_on_some_axis'] < 3 * nb or ub['dead_axis_not_x_min'] < nb
+            or ub['min_-inf_on_one_axis_max_+inf_on_all'] < 20 or ub['axis_kind_signatures'] < 100
+            or ub['points_with_nonempty_expected_set'] < nb // 4 or ub['kdtree_rects_with_nonempty_expected_set'] < 5 * kinds['points']):
+        raise vf.ToolError('vacuity: unbounded query classes missing or the empty default box expects something: %s' % ub)
     t0 = time.time()
     total, nontriv = run_cases(chk, cases, 'tlc')
     for f in rand_futs:
@@ -238,11 +307,17 @@ def main(tier):
         total += n3 + sum(f.result()[0] for f in futs)
         rc = rc + rcp
     vf.log('[C14] driver phase %.0fs' % (time.time() - t0))
+    if chk.unbounded[0] < ub['query_boxes'] + ub['query_points'] + ub['kdtree_query_rects'] or chk.unbounded[1] < ub['with_nonempty_expected_set']:
+        raise vf.ToolError('vacuity: the driver asked fewer unbounded queries (%s) than TLC printed (%s)' % (chk.unbounded, ub))
     chk.coverage['drift_count'] = len(chk.drift)
     for d in chk.drift[:3]:
         vf.log('DRIFT: (model and implementation differ where the property observable is fine; %d in total) %s' % (len(chk.drift), d[:300]))
     mid = [c for c in cases if c['kind'] == 'bvh3' and c['n'] == 4]
-    samples = [case_text(mid[len(mid) // 2]) + ' expBox=%s expSelf=%s' % (mid[len(mid) // 2]['expBox'], mid[len(mid) // 2]['expSelf']),
+    mc = mid[len(mid) // 2]
+    nf = mc['nfinite'][0]
+    samples = [case_text(mc) + ' expBox=%s expSelf=%s' % (mc['expBox'][:nf], mc['expSelf']),
+               'unbounded queries of that case (asked after build, Transform, UpdateBoxes): ' +
+               '; '.join('%s -> %s' % (q, e) for q, e in list(zip(mc['qboxes'], mc['expBox']))[nf:]).replace('"', ''),
                case_text([c for c in cases if c['kind'] == 'rects'][-1]), case_text([c for c in cases if c['kind'] == 'points'][0]),
                json.dumps(rc[0])]
     chk.coverage.update({
@@ -251,13 +326,22 @@ def main(tier):
         'exhaustive': True,
         'case_kinds': kinds, 'with_duplicate_codes': dup_codes, 'with_identical_boxes': same_box,
         'with_degenerate_box': degenerate, 'more_than_128_leaves': over128, 'seeded_large_cases': len(rc),
+        'unbounded_queries_generated_by_tlc': ub,
+        'unbounded_queries_asked_by_driver': {'distinct_queries': chk.unbounded[0], 'with_nonempty_expected_set': chk.unbounded[1],
+                                              'note': 'TLC cases + seeded large cases, per build variant; each asked in 5 phases x 3 Collisions overloads'},
         'variants': variants,
         'rule': 'TLC enumerates EXHAUSTIVELY every sorted Morton multiset of 2..6 leaves over codes 0..7 (tree invariants, kInitialLength '
                 '1/2/128), every tree they produce x every interleaving of BuildInternalBoxes, every such tree (<=4 leaves quick, <=5 thorough) x every '
                 'assignment of the 6 intervals on {0,1,2} x all interval/point/self queries (+Transform); it prints per multiset several '
                 'reproducible box assignments from 1-D/2-D/3-D lattice families (identical and zero-size boxes included), 8 box + 9 point '
                 'queries + self-collision, an axis-aligned transform and a second box set, each with the expected sets; formula-generated sets '
-                'of 129..600 leaves with long runs of equal codes; all pairs of the 36 lattice rectangles, all triples(+quadruples) of the 9 unit ones, '
+                'of 129..600 leaves with long runs of equal codes; UNBOUNDED queries in every Collider case: -Infinity/+Infinity are sentinels '
+                'outside all finite coordinates (TLC-checked per case), 8 boxes per case = whole space, the empty default Box() '
+                '(min=+inf,max=-inf, expecting the empty set), 4 boxes with every axis the whole line / a half-line / a finite interval '
+                '(all 62 mixed combinations occur), 2 boxes with one axis empty or degenerate at an infinity, plus 3 points with infinite '
+                'coordinates; asked unchanged after build, Transform and UpdateBoxes; 13 unbounded rectangles per k-d tree case; the '
+                'exhaustive traversal model (trav) asks 6 unbounded boxes + 2 points on every tree x box assignment and includes the '
+                'early-exit guard; all pairs of the 36 lattice rectangles, all triples(+quadruples) of the 9 unit ones, '
                 'patterned larger sets; patterned point sets (9..70 points on a 4x4 lattice) x 102 query rectangles. Every case is executed on '
                 'the real code through every Collisions overload; evaluations = cases executed (TLC cases + seeded large cases, per build '
                 'variant). non-trivial = distinct TLC case with at least one non-empty expected set',
@@ -266,7 +350,9 @@ def main(tier):
         'the seeded large cases (>600 leaves) use the driver\'s own brute-force closed-interval scan as oracle; it is cross-checked against '
         'the specification\'s expected sets on every TLC case (a disagreement is a tool error)',
         'tree-shape and root-box differences between model and implementation are reported as DRIFT, not as violations',
-        'RadixTree.tla is a hand transcription of collider.h:76-235 (its own invariants are checked by TLC)']
+        'RadixTree.tla is a hand transcription of collider.h:76-235 (its own invariants are checked by TLC)',
+        'unbounded queries: only QUERY boxes/points/rectangles have infinite bounds, leaf boxes are finite; intervals whose end points are '
+        'inverted other than the default empty box (+inf,-inf) are not generated']
     chk.finish()
 
 
